@@ -11,6 +11,7 @@ import (
 	"sort"
 	"strings"
 	"syscall"
+	"time"
 
 	"github.com/mutagen-io/mutagen/pkg/filesystem"
 	"github.com/mutagen-io/mutagen/pkg/filesystem/behavior"
@@ -93,6 +94,8 @@ func decNode(v any) *Node {
 	return &Node{K: k}
 }
 
+var baseTime = time.Unix(1700000000, 500000000)
+
 func digestOf(content string) []byte {
 	h := sha1.Sum([]byte(content))
 	return h[:]
@@ -148,7 +151,12 @@ func materialise(path string, n *Node) error {
 		if err := os.WriteFile(path, []byte(n.S), mode); err != nil {
 			return err
 		}
-		return os.Chmod(path, mode)
+		if err := os.Chmod(path, mode); err != nil {
+			return err
+		}
+		// a fixed modification time in the middle of a second, so that edits of
+		// +1 ns, +999 us and -1 ns stay inside the wall-clock second the scan records
+		return os.Chtimes(path, baseTime, baseTime)
 	case "link":
 		return os.Symlink(n.T, path)
 	case "fifo":
